@@ -4,6 +4,8 @@
 
 pub mod gen;
 pub mod log;
+#[cfg(feature = "deadlock")]
+pub mod net;
 pub mod rng;
 pub mod world;
 
